@@ -10,6 +10,8 @@ Three ties, all on the current working tree:
  4. ONE object, many operations (aux_c19_walks.py and the "ONE object" section below): construct, request, turn every
     public knob, request again — against the Lean object models (`hpp-walk`, `dauth-walk`), the stateless references
     for the values in force, and a freshly constructed object with the current values.
+ 5. the TYPE of a byte-string argument (aux_c19_types.py): bytes / bytearray / memoryview / subclasses carrying the same
+    value into every entry point that takes bytes; same result, caller's buffer unchanged.
 """
 import ast, base64, hashlib, os, struct
 import aux_mii_layout as L
@@ -17,6 +19,7 @@ import aux_c19_real as R
 import aux_c19_walks as W
 import aux_c19_bounds as B
 import aux_c19_wire as X
+import aux_c19_types as T
 from aux_c19_real import hx, cps
 
 LEVEL = "proof"
@@ -82,6 +85,8 @@ def run(ctx):
                 "keys dict, attributes, setters) is turned between requests, each request compared with the Lean reference for the values in force and with a fresh object; "
                 "every counter block / length / id / key generation these routines read is placed at and around every carry, block and width limit "
                 "(128-bit CTR counter block of the wrapped TLS key: low k bits all ones or j short of it for every byte position k and every j the 16 blocks can cross); "
+                "every entry point that takes a byte string is called with the same value as bytes / bytearray / memoryview (read-only, writable, window) / subclasses: "
+                "same result as for bytes (which is compared with the Lean side), caller's buffer unchanged afterwards; "
                 "distinct non-trivial = distinct input lines that are not plain rejections of random garbage")
 
     # ---- 0. self-test of the Lean references against published vectors
@@ -788,6 +793,14 @@ def run(ctx):
     B.nasc_bounds(ctx, rng, C, oracle_fail, quick)
     ctx.extra["boundary_lines"] = len(C.lines) - _n0
     ctx.extra["boundary_seconds_real_side"] = round(_time.time() - _t0, 1)
+
+    # ------------------------------------------------------------------------------------------ the TYPE of a byte-string argument
+    # every entry point that takes a byte string, called with the same value as bytes / bytearray / memoryview (read-only,
+    # writable, window into a larger buffer) / subclasses; the caller's buffer inspected afterwards: see aux_c19_types.py
+    _t0, _n0 = _time.time(), len(C.lines)
+    T.type_families(ctx, rng, C, oracle_fail, quick, names, kinds, counts, built, B.ProdKit(rng, tkey, der_cert), rand_vals)
+    ctx.extra["byte_type_lines"] = len(C.lines) - _n0
+    ctx.extra["byte_type_seconds_real_side"] = round(_time.time() - _t0, 1)
 
     # ------------------------------------------------------------------------------------------ compare
     outs = par_batch(drv, C.lines)
